@@ -136,4 +136,28 @@ def c06(tier, seed):
                 "vocabulary": "get, drop, forget, lock+drop, read+unlock, lock+forget(guard), failed try_lock, try_write, scoped lent/owned, scoped lent/owned with panic, guard with panic, poisonable lock (Ok/Err) and with panic, poisonable try_lock+unlock, collection lock+unlock, collection try_lock+forget, second thread, collection scoped owned"})
 
 
-PROPS = {"C13": c13, "C06": c06, "C08": c08, "C07": c07, "C10": c10, "C11": c11, "C12": c12, "C04": c04, "C05": c05, "C03": c03, "C09": c09}
+def c02(tier, seed):
+    from harness import props
+    text, names = props.gen_data(tier)
+    return checks.run_mirsym_property(
+        "C02", tier, seed, {"h_data.rs": text}, codes("M_DATA", "M_NOT_HELD_IN_SECTION", "M_HELD_AFTER_ERR"),
+        assumptions=sys_assumptions + [
+            "mutual exclusion between threads is the raw lock's contract (lock_api); what is decided here is happylock's part: user code reaches data only while the leaves are held in the requested mode (also C04's M_NOT_HELD_IN_SECTION / M_NOT_ALL_HELD under the adversarial environment) and position i of every guard / closure argument is member i",
+            "payload values are symbolic bytes; equality of what is read and what was written is decided by z3"],
+        bounds=BOUNDS)
+
+
+def c16(tier, seed):
+    from harness import props
+    text, names = props.gen_drop(tier)
+    return checks.run_mirsym_property(
+        "C16", tier, seed, {"h_drop.rs": text}, codes("M_DROP_COUNT", "M_DATA", "M_DUP_VERDICT", "M_HELD_AFTER_ERR", "M_POISON_MODEL", "M_BLOCKING_IN_TRY"),
+        opts={"check_leaks": True},
+        assumptions=sys_assumptions + [
+            "payload D{id,val} whose Drop bumps a per-id counter; val is a symbolic byte written under a lock",
+            "mirsym's heap model reports double free, use after free, out-of-bounds access and allocations still live at the end of a path (confirmed natively with a counting global allocator)"],
+        bounds={"shapes": "3-member tuples, arrays, Vec, boxed slice, nested owned/retrying inside boxed, Poisonable, single locks",
+                "paths": "plain drop, into_inner, into_child, get_mut, into_iter (partially consumed), extend, try_new accept and reject (duplicate references around an owned member)"})
+
+
+PROPS = {"C13": c13, "C16": c16, "C02": c02, "C06": c06, "C08": c08, "C07": c07, "C10": c10, "C11": c11, "C12": c12, "C04": c04, "C05": c05, "C03": c03, "C09": c09}
